@@ -19,7 +19,7 @@ use nom::{
 
 use super::common::keyword_pair;
 use super::{
-    common::{in_braces, in_parentheses, skip_ws, skip_ws_and_comments, value_reference},
+    common::{in_braces, in_parentheses, skip_ws_and_comments, value_reference},
     constraint::constraints,
     error::ParserResult,
     RELATIVE_OID,
@@ -46,9 +46,9 @@ use super::{
 ///     RelativeOIDComponents RelativeOIDComponentsList
 /// ```
 pub fn object_identifier_value(input: Input<'_>) -> ParserResult<'_, ObjectIdentifierValue> {
-    into(skip_ws_and_comments(in_braces(many1(skip_ws(
-        object_identifier_arc,
-    )))))
+    into(skip_ws_and_comments(in_braces(many1(
+        skip_ws_and_comments(object_identifier_arc),
+    ))))
     .parse(input)
 }
 
@@ -102,9 +102,12 @@ pub fn object_identifier(input: Input<'_>) -> ParserResult<'_, ASN1Type> {
 ///     DefinedValue
 /// ```
 fn object_identifier_arc(input: Input<'_>) -> ParserResult<'_, ObjectIdentifierArc> {
-    skip_ws(alt((
+    skip_ws_and_comments(alt((
         numeric_id,
-        into(pair(value_reference, skip_ws(in_parentheses(u128)))),
+        into(pair(
+            value_reference,
+            skip_ws_and_comments(in_parentheses(u128)),
+        )),
         into(value_reference),
     )))
     .parse(input)
